@@ -46,6 +46,14 @@ Fixpoint go_bytes_eqb (a b : list N) : bool :=
   | _, _ => false
   end.
 
+(* s < t on strings: byte-wise lexicographic *)
+Fixpoint go_bytes_ltb (a b : list N) : bool :=
+  match a, b with
+  | _, [] => false
+  | [], _ :: _ => true
+  | x :: a', y :: b' => if N.ltb x y then true else if N.ltb y x then false else go_bytes_ltb a' b'
+  end.
+
 (* encoding/binary.BigEndian.UintNN(b): reads the first NN/8 bytes (checked by the guard go_len b >= NN/8) *)
 Fixpoint go_be (n : nat) (acc : Z) (l : list N) : Z :=
   match n, l with
@@ -84,6 +92,30 @@ Fixpoint go_count_from {S R} (k : nat) (i : Z) (f : Z -> S -> ctl S R) (s : S) :
   | Datatypes.S k' => bindc (f i s) (go_count_from k' (i + 1) f)
   end.
 Definition go_count {S R} (a n : Z) (f : Z -> S -> ctl S R) (s : S) : ctl S R := go_count_from (Z.to_nat (n - a)) a f s.
+
+(* for i := a; i >= n; i-- { body } where the body assigns neither i nor anything n depends on: i = a, a-1, .., n *)
+Fixpoint go_count_down_from {S R} (k : nat) (i : Z) (f : Z -> S -> ctl S R) (s : S) : ctl S R :=
+  match k with
+  | O => Next s
+  | Datatypes.S k' => bindc (f i s) (go_count_down_from k' (i - 1) f)
+  end.
+Definition go_count_down {S R} (a n : Z) (f : Z -> S -> ctl S R) (s : S) : ctl S R := go_count_down_from (Z.to_nat (a - n + 1)) a f s.
+
+(* sort.Slice(v, less): the list sorted by less (insertion sort, stable). It is what sort.Slice - which is not stable and
+   compares pairs of its own choosing - produces when less is a strict total order on the elements of v, the only case
+   in which Go determines the result. [less a b = None]: a run-time check of the comparator fails on that pair; the
+   translation panics if that can happen for any ordered pair of elements (Go might not compare that pair). *)
+Fixpoint go_insert {A} (less : A -> A -> bool) (x : A) (l : list A) : list A :=
+  match l with
+  | [] => [x]
+  | y :: r => if less x y then x :: l else y :: go_insert less x r
+  end.
+Definition go_less_total {A} (less : A -> A -> option bool) (l : list A) : bool :=
+  forallb (fun a => forallb (fun b => match less a b with Some _ => true | None => false end) l) l.
+Definition go_sort_by {A} (less : A -> A -> option bool) (l : list A) : option (list A) :=
+  if go_less_total less l
+  then Some (fold_right (go_insert (fun a b => match less a b with Some r => r | None => false end)) [] l)
+  else None.
 
 (* map[K]V with an integer key type: association list, at most one entry per key, in order of first insertion
    (Go's iteration order is unspecified: ranging over a map is outside the subset) *)
